@@ -94,6 +94,14 @@ Proof.
     repeat case_match; simplify_eq; eauto.
 Qed.
 
+Lemma sf_call t i f ch i' f' : step_frame t i f ch = Some (Ok (i', Continue f')) -> f_call f' = f_call f.
+Proof.
+  intros H. unfold step_frame in H.
+  destruct (f_pc f) eqn:Hpc;
+    unfold expunge_done, tlos_done, bind in H; unfold after_miss, dirty_next, los_return, range_next in H;
+    repeat case_match; simplify_eq; cbn; congruence.
+Qed.
+
 Lemma step_fstep c t ch c' :
   Inv c -> Shaped flat_call c -> step c t ch = Some c' -> fstep c t ch c'.
 Proof.
@@ -109,11 +117,10 @@ Proof.
   destruct (is_post_label (f_pc f)) eqn:Hpl.
   - destruct (step_post (c_um c) f) as [[[um' o]|k]|] eqn:Hsp; [| |discriminate].
     + destruct (step_post_return _ _ _ _ Hsp) as [r ->].
-      apply (fo_post _ Hok) in Hpl as Hp. destruct (f_call f) eqn:Hc; try contradiction.
-      cbn in H. injection H as <-. rewrite <- Hc, <- Hst at 1.
-      replace (Thread (t_prog th) (t_stack th) (t_results th) false) with (Thread (t_prog th) (t_stack th) (t_results th) false) by reflexivity.
+      apply (fo_post _ Hok) in Hpl as Hp. unfold fin, do_return in H.
+      destruct (f_call f) eqn:Hc; try contradiction. injection H as <-. rewrite <- Hc.
       eapply (fs_post c t ch th f um' r); eauto.
-    + cbn in H. injection H as <-. eapply fs_post_panic; eauto.
+    + unfold fin in H. injection H as <-. eapply fs_post_panic; eauto.
   - rewrite Hj in H.
     destruct (nth_error (c_insts c) 0) as [i|] eqn:Hi; [|discriminate].
     destruct (step_frame t i f ch) as [r|] eqn:Hsf; [|discriminate].
@@ -124,7 +131,202 @@ Proof.
         rewrite Hmu in Hw. destruct (sf_cs t i f ch r Hok Hcs Hmu (Hw f Tt) Hsf) as (i' & o & -> & _). eauto.
       - destruct r as [[i' o]|k]; [eauto|]. exfalso. eapply sf_free_nopanic; eauto. }
     destruct o as [f'|r|f' k v].
-    + cbn in H. injection H as <-. eapply fs_cont; eauto.
-    + cbn in H. injection H as <-. eapply fs_ret; eauto.
+    + unfold fin in H. injection H as <-. eapply fs_cont; eauto.
+    + unfold fin, do_return in H. injection H as <-. eapply fs_ret; eauto.
     + exfalso. apply sf_callback in Hsf as (j & cb & E). rewrite E in Hstk. exact Hstk.
+Qed.
+
+(* ---- the threads after a step ---- *)
+Lemma shaped_next_call Q prog res b : Forall Q prog -> shaped_thread Q (next_call (Thread prog [] res b)).
+Proof.
+  intros H. unfold next_call. cbn. destruct prog as [|c prog]; cbn.
+  - split; [constructor|exact I].
+  - inversion H; subst. split; assumption.
+Qed.
+
+Lemma Shaped_set Q c c' t th' :
+  t < length (c_threads c) -> Shaped Q c -> c_threads c' = set_nth_list t th' (c_threads c) -> shaped_thread Q th' ->
+  Shaped Q c'.
+Proof.
+  intros Hl Hc E Hth' t' th0. rewrite E. destruct (decide (t' = t)) as [->|N].
+  - rewrite nth_error_set_nth_list_eq by exact Hl. congruence.
+  - rewrite nth_error_set_nth_list_ne by auto. apply Hc.
+Qed.
+
+Lemma Shaped_fstep Q c t ch c' : Inv c -> Shaped Q c -> fstep c t ch c' -> Shaped Q c'.
+Proof.
+  intros HI HS H.
+  destruct H as [th f um' r Hth Hst Hpl Hsp|th f k Hth Hst Hpl Hsp|th f i i' f' Hth Hst Hpl Hi Hsf|th f i i' r Hth Hst Hpl Hi Hsf];
+    (assert (Hl : t < length (c_threads c)) by (eapply nth_error_lt; eauto));
+    destruct (HS t th Hth) as [Hprog Hstk]; rewrite Hst in Hstk;
+    (eapply Shaped_set; [exact Hl|exact HS|reflexivity|]).
+  - apply shaped_next_call, Hprog.
+  - split; [constructor|exact I].
+  - split; [exact Hprog|]. cbn.
+    assert (Tt : top_frame c t = Some f) by (unfold top_frame; rewrite Hth, Hst; reflexivity).
+    destruct (sf_frame_ok _ _ _ _ _ _ (inv_frames c HI _ _ Tt) Hsf) as [_ ->]. exact Hstk.
+  - apply shaped_next_call, Hprog.
+Qed.
+
+Lemma Shaped_init Q n progs : Forall (Forall Q) progs -> Shaped Q (init_config n progs).
+Proof.
+  intros H t th. cbn. rewrite nth_error_map. destruct (nth_error progs t) as [p|] eqn:E; [|discriminate].
+  cbn. intros [= <-]. apply shaped_next_call. rewrite Forall_forall in H. apply H. eapply nth_error_In, E.
+Qed.
+
+Lemma Shaped_weaken (Q Q' : call -> Prop) c : (forall x, Q x -> Q' x) -> Shaped Q c -> Shaped Q' c.
+Proof.
+  intros HQ HS t th Hth. destruct (HS t th Hth) as [H1 H2]. split.
+  - eapply Forall_impl; eauto.
+  - destruct (t_stack th) as [|f [|]]; auto.
+Qed.
+
+(* ---- which labels belong to which call ---- *)
+Definition pc_ok (c : call) (l : label) : bool :=
+  match c with
+  | CLoad _ _ =>
+      match l with Load_read1 | Load_lock | Load_read2 | Miss_store | Load_unlock | E_load => true | _ => false end
+  | CStore _ _ _ =>
+      match l with
+      | Store_read1 | TryStore_load | TryStore_cas | Store_lock | Store_read2 | Unexpunge_cas | StoreLocked
+      | Store_amend | Store_unlock | Dirty_read | Dirty_iter | Expunge_load1 | Expunge_cas | Expunge_load2 => true
+      | _ => false
+      end
+  | CLoadOrStore _ _ _ p =>
+      match l with
+      | LOS_read1 | Tlos_load1 | Tlos_cas | Tlos_load2 | LOS_lock | LOS_read2 | Unexpunge_cas
+      | Dirty_read | Dirty_iter | Expunge_load1 | Expunge_cas | Expunge_load2 | LOS_amend | Miss_store | LOS_unlock => true
+      | _ => match post_label p with Some l' => label_eqb l l' | None => false end
+      end
+  | CLoadAndDelete _ _ | CDelete _ _ =>
+      match l with LAD_read1 | LAD_lock | LAD_read2 | Miss_store | LAD_unlock | Delete_load | Delete_cas => true | _ => false end
+  | CRange _ _ =>
+      match l with Range_read1 | Range_lock | Range_read2 | Range_promote | Range_unlock | Range_iter | E_load => true | _ => false end
+  end.
+
+Lemma pc_ok_new c : pc_ok c (first_label c) = true.
+Proof. destruct c; reflexivity. Qed.
+
+Lemma label_eqb_refl l : label_eqb l l = true.
+Proof. unfold label_eqb. destruct (label_eq_dec l l); congruence. Qed.
+
+Lemma sf_pc_ok t i f ch i' f' :
+  pc_ok (f_call f) (f_pc f) = true -> step_frame t i f ch = Some (Ok (i', Continue f')) ->
+  pc_ok (f_call f') (f_pc f') = true.
+Proof.
+  intros Hpc H. unfold step_frame in H.
+  destruct (f_call f) eqn:Hc; destruct (f_pc f) eqn:Hl; try discriminate Hpc;
+    unfold expunge_done, tlos_done, bind in H; unfold after_miss, dirty_next, los_return, range_next in H;
+    rewrite ?Hc in H; cbn in H;
+    repeat case_match; simplify_eq; cbn; rewrite ?Hc; cbn; try reflexivity.
+  all: try (destruct p; discriminate).
+  all: try (match goal with H : post_label ?p = Some _ |- _ => destruct p; cbn in H; simplify_eq; reflexivity end).
+Qed.
+
+Definition PcOK (c : config) : Prop := forall t f, top_frame c t = Some f -> pc_ok (f_call f) (f_pc f) = true.
+
+Lemma top_frame_next_call prog res b f :
+  head (t_stack (next_call (Thread prog [] res b))) = Some f -> exists c, f = new_frame c.
+Proof. unfold next_call. cbn. destruct prog as [|c prog]; cbn; [discriminate|]. intros [= <-]. eauto. Qed.
+
+Lemma PcOK_fstep c t ch c' : PcOK c -> fstep c t ch c' -> PcOK c'.
+Proof.
+  intros HP H.
+  destruct H as [th f um' r Hth Hst Hpl Hsp|th f k Hth Hst Hpl Hsp|th f i i' f' Hth Hst Hpl Hi Hsf|th f i i' r Hth Hst Hpl Hi Hsf];
+    (assert (Hl : t < length (c_threads c)) by (eapply nth_error_lt; eauto));
+    (assert (Tt : top_frame c t = Some f) by (unfold top_frame; rewrite Hth, Hst; reflexivity));
+    intros t' f0; (erewrite top_frame_set; [|exact Hl|reflexivity]);
+    (destruct (decide (t' = t)) as [->|N]; [|apply HP]).
+  - intros H. apply top_frame_next_call in H as [c0 ->]. apply pc_ok_new.
+  - discriminate.
+  - cbn. intros [= <-]. eapply sf_pc_ok; eauto.
+  - intros H. apply top_frame_next_call in H as [c0 ->]. apply pc_ok_new.
+Qed.
+
+Lemma PcOK_init n progs : PcOK (init_config n progs).
+Proof. intros t f H. apply init_top in H as [c ->]. apply pc_ok_new. Qed.
+
+(* ---- ghosts computed from the history ---- *)
+(* the pending call of every thread, and the completed calls with their results, oldest first *)
+Definition hstate : Type := gmap nat call * list (nat * call * res).
+Definition hstep (s : hstate) (ev : event) : hstate :=
+  match ev with
+  | EvInv t c => (<[t := c]> s.1, s.2)
+  | EvRes t r => match s.1 !! t with Some c => (delete t s.1, s.2 ++ [(t, c, r)]) | None => s end
+  end.
+Definition hfold (h : list event) : hstate := fold_left hstep h (∅, []).
+Definition pend_of (h : list event) : gmap nat call := (hfold h).1.
+Definition completed (h : list event) : list (nat * call * res) := (hfold h).2.
+
+Lemma hfold_app h1 h2 : hfold (h1 ++ h2) = fold_left hstep h2 (hfold h1).
+Proof. unfold hfold. apply fold_left_app. Qed.
+
+Definition maybe_inv (fresh : bool) (t : nat) (c : call) : list event := if fresh then [EvInv t c] else [].
+
+Lemma hfold_inv h t c fresh :
+  (fresh = false -> pend_of h !! t = Some c) ->
+  hfold (h ++ maybe_inv fresh t c) = (<[t := c]> (pend_of h), completed h).
+Proof.
+  intros H. rewrite hfold_app. unfold pend_of, completed in *. destruct fresh; cbn.
+  - reflexivity.
+  - rewrite insert_id by auto. destruct (hfold h); reflexivity.
+Qed.
+
+Lemma hfold_inv_res h t c r fresh :
+  (fresh = false -> pend_of h !! t = Some c) ->
+  hfold (h ++ maybe_inv fresh t c ++ [EvRes t r]) = (delete t (pend_of h), completed h ++ [(t, c, r)]).
+Proof.
+  intros H. rewrite app_assoc, hfold_app, hfold_inv by exact H. cbn.
+  rewrite lookup_insert. cbn. rewrite delete_insert_delete. reflexivity.
+Qed.
+
+(* the call a thread is executing, as far as the history knows *)
+Definition cur_call (th : thread) : option call :=
+  match t_stack th with [f] => if t_fresh th then None else Some (f_call f) | _ => None end.
+
+Definition HistOK (c : config) : Prop :=
+  forall t, pend_of (c_hist c) !! t = match nth_error (c_threads c) t with Some th => cur_call th | None => None end.
+
+Lemma cur_call_next_call prog res : cur_call (next_call (Thread prog [] res false)) = None.
+Proof. unfold next_call. cbn. destruct prog; reflexivity. Qed.
+
+(* what a step does to the history ghosts *)
+Lemma hist_fstep c t ch c' : HistOK c -> fstep c t ch c' ->
+  HistOK c' /\
+  exists th f, nth_error (c_threads c) t = Some th /\ t_stack th = [f] /\
+    (completed (c_hist c') = completed (c_hist c) \/
+     exists r, completed (c_hist c') = completed (c_hist c) ++ [(t, f_call f, r)] /\
+               c_hist c' = c_hist c ++ inv_ev t th f ++ [EvRes t r]).
+Proof.
+  intros HH H.
+  assert (P0 : forall th f, nth_error (c_threads c) t = Some th -> t_stack th = [f] ->
+               t_fresh th = false -> pend_of (c_hist c) !! t = Some (f_call f)).
+  { intros th f Hth Hst Hf. rewrite HH, Hth. unfold cur_call. rewrite Hst, Hf. reflexivity. }
+  assert (Set_ : forall th th' hist' insts um b p,
+     nth_error (c_threads c) t = Some th -> p !! t = cur_call th' -> (forall t', t' <> t -> p !! t' = pend_of (c_hist c) !! t') ->
+     pend_of hist' = p -> HistOK (Config insts um (set_nth_list t th' (c_threads c)) hist' b)).
+  { intros th th' hist' insts um b p Hth Hp Ho Hh t'. cbn. rewrite Hh.
+    assert (Hl : t < length (c_threads c)) by (eapply nth_error_lt; eauto).
+    destruct (decide (t' = t)) as [->|N].
+    - rewrite nth_error_set_nth_list_eq by exact Hl. exact Hp.
+    - rewrite nth_error_set_nth_list_ne by auto. rewrite Ho by exact N. apply HH. }
+  destruct H as [th f um' r Hth Hst Hpl Hsp|th f k Hth Hst Hpl Hsp|th f i i' f' Hth Hst Hpl Hi Hsf|th f i i' r Hth Hst Hpl Hi Hsf];
+    (split; [|exists th, f; split; [exact Hth|split; [exact Hst|]]]); unfold inv_ev; fold (maybe_inv (t_fresh th) t (f_call f)); cbn [c_hist].
+  - eapply Set_; [exact Hth| | |unfold pend_of; rewrite hfold_inv_res by eauto; reflexivity].
+    + rewrite lookup_delete, cur_call_next_call. reflexivity.
+    + intros t' N. rewrite lookup_delete_ne by auto. reflexivity.
+  - right. exists r. split; [|reflexivity]. unfold completed at 1. rewrite hfold_inv_res by eauto. reflexivity.
+  - eapply Set_; [exact Hth| | |unfold pend_of; rewrite hfold_inv_res by eauto; reflexivity].
+    + rewrite lookup_delete. reflexivity.
+    + intros t' N. rewrite lookup_delete_ne by auto. reflexivity.
+  - right. exists (RPanic k). split; [|reflexivity]. unfold completed at 1. rewrite hfold_inv_res by eauto. reflexivity.
+  - eapply Set_; [exact Hth| | |unfold pend_of; rewrite hfold_inv by eauto; reflexivity].
+    + rewrite lookup_insert. unfold cur_call. cbn.
+      f_equal. symmetry. eapply sf_call; eauto.
+    + intros t' N. rewrite lookup_insert_ne by auto. reflexivity.
+  - left. unfold completed at 1. rewrite hfold_inv by eauto. reflexivity.
+  - eapply Set_; [exact Hth| | |unfold pend_of; rewrite hfold_inv_res by eauto; reflexivity].
+    + rewrite lookup_delete, cur_call_next_call. reflexivity.
+    + intros t' N. rewrite lookup_delete_ne by auto. reflexivity.
+  - right. eexists. split; [|reflexivity]. unfold completed at 1. rewrite hfold_inv_res by eauto. reflexivity.
 Qed.
